@@ -1,6 +1,7 @@
 ----------------------------- MODULE QuotaFitTrace -----------------------------
 (* code -> spec, estimator level: what ConstraintKMeans.fit / predict return.            *)
-(* kind "fit":     labels_ (valid indices, sizes floor/ceil of n/k), finite centres,     *)
+(* kind "fit":     labels_ (valid indices; sizes floor/ceil of n/k for the strategies    *)
+(*                 'distance' and 'gain' - field sized), finite centres,                 *)
 (*                 n_iter_ <= max_iter.                                                  *)
 (* kind "predict": balanced predictions obey the size constraint on the batch;           *)
 (*                 plain predictions are a nearest centre (squared distances scaled by   *)
@@ -18,7 +19,7 @@ Nearest(lab, dist) == \A p \in 1 .. Len(lab) : \A c \in 1 .. Len(dist[p]) : dist
 Observe == /\ l = 1
            /\ Require(Len(T.labels) = T.n /\ Valid(T.labels, T.k), T.id, "ValidLabels", l, [labels |-> T.labels])
            /\ IF T.kind = "fit"
-              THEN /\ Require(SizesOK(T.labels, T.n, T.k), T.id, "Balanced", l, [sizes |-> [c \in 0 .. T.k - 1 |-> Cnt(T.labels, c)]])
+              THEN /\ Require(~T.sized \/ SizesOK(T.labels, T.n, T.k), T.id, "Balanced", l, [sizes |-> [c \in 0 .. T.k - 1 |-> Cnt(T.labels, c)]])
                    /\ Require(T.finite, T.id, "CentresFinite", l, <<>>)
                    /\ Require(T.n_iter <= T.max_iter, T.id, "NIterBound", l, [n_iter |-> T.n_iter, max_iter |-> T.max_iter])
               ELSE IF T.balanced
